@@ -187,7 +187,9 @@ def derivedGroups : List Grp :=
 /-- groups living (partly) in the arena: re-allocated, hence clobbered, by every position stage -/
 def arenaGroups : List Grp := [vel, cfrc, cstate, csol, iscratch]
 
-/-- stack discipline + allocation constants: read by everything that allocates -/
+/-- stack discipline + allocation constants: read by everything that allocates.  A stage function leaves
+    pstack / pbase as it found them (mj_markStack / mj_freeStack are balanced; validated by V1), so `stack` is
+    in the reads but not in the writes of the stage functions. -/
 def mem : List Grp := [memc, stack]
 
 /-- what any sensor stage may read besides the stage's own inputs (delay / interval sensors) -/
@@ -203,75 +205,75 @@ def stageNoSleep (key : String) : Option (Footprint Grp) :=
   match key with
   | "mj_fwdPosition" => some
     { R := [qpos, mocap_pos, mocap_quat, eq_active] ++ mem
-      W := [pos, ePos, sleep, diag, stack] ++ arenaGroups
+      W := [pos, ePos, sleep, diag] ++ arenaGroups
       K := [pos, ePos] }
   | "mj_invPosition" => some
     { R := [qpos, mocap_pos, mocap_quat, eq_active] ++ mem
-      W := [pos, ePos, sleep, diag, stack] ++ arenaGroups
+      W := [pos, ePos, sleep, diag] ++ arenaGroups
       K := [pos, ePos] }
   | "mj_sensorPos" => some
     { R := [pos, qpos, ePos] ++ sensCommon ++ mem
-      W := [sensPos, ePos, diag, stack]
+      W := [sensPos, ePos, diag]
       K := [sensPos, ePos] }
   | "mj_energyPos" => some
-    { R := [pos, qpos] ++ mem, W := [ePos, stack], K := [ePos] }
+    { R := [pos, qpos] ++ mem, W := [ePos], K := [ePos] }
   | "mj_fwdVelocity" => some
     { R := [pos, qpos, qvel] ++ mem
-      W := [vel, subtreevel, eVel, diag, stack]
+      W := [vel, subtreevel, eVel, diag]
       K := [vel, subtreevel, eVel] }
   | "mj_sensorVel" => some
     { R := [pos, vel, qpos, qvel, subtreevel, eVel] ++ sensCommon ++ mem
-      W := [sensVel, subtreevel, eVel, diag, stack]
+      W := [sensVel, subtreevel, eVel, diag]
       K := [sensVel, subtreevel, eVel] }
   | "mj_energyVel" => some
-    { R := [pos, qvel] ++ mem, W := [eVel, stack], K := [eVel] }
+    { R := [pos, qvel] ++ mem, W := [eVel], K := [eVel] }
   | "mj_fwdActuation" => some
     { R := [pos, vel, ctrl, act, time, history, qpos, qvel] ++ mem
-      W := [actuation, diag, stack]
+      W := [actuation, diag]
       K := [actuation] }
   | "mj_fwdAcceleration" => some
     { R := [pos, vel, actuation, qfrc_applied, xfrc_applied] ++ mem
-      W := [smooth, diag, stack]
+      W := [smooth, diag]
       K := [smooth] }
   | "mj_fwdConstraint" => some
     { R := [pos, vel, smooth, qacc_warmstart] ++ mem
-      W := [cfrc, cstate, csol, iscratch, Grp.qacc, diag, stack]
+      W := [cfrc, cstate, csol, iscratch, Grp.qacc, diag]
       K := [cfrc, csol, Grp.qacc] }
   | "mj_sensorAcc" => some
     { R := [pos, vel, actuation, cfrc, Grp.qacc, qpos, qvel, xfrc_applied, rnepost, subtreevel] ++ sensCommon ++ mem
-      W := [sensAcc, rnepost, subtreevel, diag, stack]
+      W := [sensAcc, rnepost, subtreevel, diag]
       K := [sensAcc, rnepost, subtreevel] }
   | "mj_invConstraint" => some
     { R := [pos, vel, Grp.qacc] ++ mem
-      W := [cfrc, cstate, diag, stack]
+      W := [cfrc, cstate, diag]
       K := [cfrc] }
   | "mj_discreteAcc" => some
     { R := [pos, vel, qpos, qvel, Grp.qacc, ctrl, act, sleep] ++ mem
-      W := [Grp.qacc, integ, vel, diag, stack]
+      W := [Grp.qacc, integ, vel, diag]
       K := [Grp.qacc] }
   | "mj_rne(m, d, 0, d->qfrc_inverse)" => some
-    { R := [pos, vel, qvel] ++ mem, W := [qfrc_inverse, stack], K := [qfrc_inverse] }
+    { R := [pos, vel, qvel] ++ mem, W := [qfrc_inverse], K := [qfrc_inverse] }
   | "mj_tendonBias(m, d, d->qfrc_inverse)" => some
-    { R := [pos, vel, qvel, qfrc_inverse] ++ mem, W := [qfrc_inverse, stack], K := [qfrc_inverse] }
+    { R := [pos, vel, qvel, qfrc_inverse] ++ mem, W := [qfrc_inverse], K := [qfrc_inverse] }
   | "mj_mulM(m, d, Ma, d->qacc)" => some
     { R := [pos, Grp.qacc, locals], W := [locals], K := [] }
   | "mjd_effMulAdd(m, d, Ma, d->qacc)" => some
-    { R := [pos, Grp.qacc, locals] ++ mem, W := [locals, stack], K := [] }
+    { R := [pos, Grp.qacc, locals] ++ mem, W := [locals], K := [] }
   | "mj_xfrcAccumulate(m, d, qforce)" => some
     { R := [pos, xfrc_applied, locals], W := [locals], K := [] }
   -- integrators (atomic): advance the state; the derived data they leave behind is not claimed
   | "mj_EulerSkip(m, d, 0)" => some
     { R := integratorReads ++ mem
-      W := [qpos, qvel, act, time, history, qacc_warmstart, plugin_state, integ, rnepost, subtreevel, sleep, diag, stack]
+      W := [qpos, qvel, act, time, history, qacc_warmstart, plugin_state, integ, rnepost, subtreevel, sleep, diag]
       K := [qpos, qvel, act, time, history, qacc_warmstart, plugin_state] }
   | "mj_implicitSkip(m, d, 0)" => some
     -- `sleep`: mjd_freeMhat / the tendon derivative test d->tree_awake without testing mjENBL_SLEEP
     { R := integratorReads ++ [sleep] ++ mem
-      W := [qpos, qvel, act, time, history, qacc_warmstart, plugin_state, integ, rnepost, subtreevel, sleep, diag, stack]
+      W := [qpos, qvel, act, time, history, qacc_warmstart, plugin_state, integ, rnepost, subtreevel, sleep, diag]
       K := [qpos, qvel, act, time, history, qacc_warmstart, plugin_state] }
   | "mj_advance(m, d, dX+2*nv, dX+nv, dX)" => some
     { R := integratorReads ++ [locals] ++ mem
-      W := [qpos, qvel, act, time, history, qacc_warmstart, plugin_state, rnepost, subtreevel, sleep, diag, stack]
+      W := [qpos, qvel, act, time, history, qacc_warmstart, plugin_state, rnepost, subtreevel, sleep, diag]
       K := [qpos, qvel, act, time, history, qacc_warmstart, plugin_state] }
   -- reset: everything but the allocation constants becomes a function of the model
   | "mj_resetData" => some
